@@ -28,9 +28,9 @@ def rand_exec(rng, nops, allow_attach=True):
         elif k < 0.50:
             ops.append("reserve %d %d" % (i, n))
         elif k < 0.60:
-            ops.append("rmfront %d %d" % (i, rng.choice([0, 1, 1, 2, 3])))
+            ops.append("rmfront %d %d" % (i, rng.choice([0, 1, 1, 2, 3, 3, 9, -1, -2, -5])))      # negative: SIZE_MAX + 1 + n
         elif k < 0.68:
-            ops.append("rmback %d %d" % (i, rng.choice([0, 1, 1, 2, 3])))
+            ops.append("rmback %d %d" % (i, rng.choice([0, 1, 1, 2, 3, 3, 9, -1, -2, -5])))
         elif k < 0.71:
             ops.append("clear %d" % i)
         elif k < 0.74:
